@@ -8,6 +8,8 @@
 // (New; Analysis x analyses; Refactoring); at the end the listings are taken again ("after"). The record
 // carries both listings (every file, its content split at "\n"). No expected values here: TLC
 // (X01MoveClassRef!Diff) judges. A run that ends the process (log.Fatal) is recorded by the runner as died.
+// With input.via = "cli" the single project is refactored by the coca binary instead
+// (`coca refactor -m move.config -p DIR`, which also runs the remove-unused-imports pass afterwards).
 //
 // VERIF_VALIDATE=1 (development): every rendered file is parsed with the repository's Java parser and the
 // number of syntax errors is reported in `syntax_errors` (the generators must produce none).
@@ -17,6 +19,7 @@ import (
 	"encoding/json"
 	"fmt"
 	"os"
+	"os/exec"
 	"path/filepath"
 	"sort"
 	"strings"
@@ -56,6 +59,7 @@ type Project struct {
 }
 
 type Input struct {
+	Via      string    `json:"via"` // "api" | "cli"
 	Projects []Project `json:"projects"`
 }
 
@@ -88,6 +92,9 @@ type Record struct {
 }
 
 func normalize(in *Input) {
+	if in.Via == "" {
+		in.Via = "api"
+	}
 	if in.Projects == nil {
 		in.Projects = []Project{}
 	}
@@ -271,6 +278,28 @@ func one(raw json.RawMessage) interface{} {
 	}
 	// (a run that ends the process by log.Fatal leaves the scratch tree behind; it lies below VERIF_SCRATCH, which
 	// the check removes when it ends)
+	if c.Input.Via == "cli" {
+		// the command, one OS process per project (cwd and TMPDIR inside the scratch directory)
+		bin := os.Getenv("VERIF_COCA")
+		if bin == "" {
+			fmt.Fprintln(os.Stderr, "harness: VERIF_COCA not set")
+			os.Exit(2)
+		}
+		for i := range c.Input.Projects {
+			cmd := exec.Command(bin, "refactor", "-m", configs[i], "-p", roots[i])
+			cmd.Dir = filepath.Dir(configs[i])
+			cmd.Env = append(os.Environ(), "TMPDIR="+scratch, "HOME="+scratch)
+			if out, err := cmd.CombinedOutput(); err != nil {
+				rec.Observed.Panic = true
+				rec.Observed.Note = short(err.Error()+": "+string(out), 300)
+			}
+		}
+		for i, r := range roots {
+			obs[i].After = listing(r)
+		}
+		rec.Observed.Projects = obs
+		return rec
+	}
 	p, msg := lib.Guard(func() {
 		for i, pr := range c.Input.Projects {
 			app := moveclass.NewMoveClassApp(configs[i], roots[i])
